@@ -25,7 +25,7 @@ def strategy(tier):
         spec = draw(gen.charts(max_states=9, p_sends=0.4, send_delays=True, max_tr=10,
                                p_eventless=0.1, p_aguard=0.15))
         ops = draw(gen.histories(spec, 10, 40, advances=True, delays=True, as_event=True,
-                                 extra_events=1, p_all=0.3, p_none=0.3))
+                                 extra_events=1, p_all=0.3, p_none=0.3, big_jump=True))
         # anonymous events (a quarter of the cases): nothing but class, name and delay tells an
         # internal event from an external one
         return {'spec': spec, 'ops': ops, 'nouid': draw(st.integers(0, 3)) == 0,
